@@ -332,6 +332,12 @@ func (c *FnCtx) heapSym(st *State, key, sort string, nargs int) string {
 	if !c.declared[name] {
 		c.declare(name, args, sort)
 		c.heapRangeAxiom(key, name, nargs)
+		// well-formed entry heap: every slice header stored in memory at entry refers to memory
+		// allocated before the call (also under a quantifier, where the per-read fact of
+		// entryRefFacts cannot be emitted)
+		if strings.HasSuffix(key, "_ref") && sort == "Int" && nargs == 2 && c.entry != nil && c.entry.alloc != "" {
+			c.emit(fmt.Sprintf("(assert (forall ((r Int) (i Int)) (! (< (%s r i) %s) :pattern ((%s r i)))))", name, c.entry.alloc, name))
+		}
 	}
 	return name
 }
